@@ -126,6 +126,7 @@ RCP<const Basic> Parser::functionify(const std::string &name, vec_basic &params)
             {"uppergamma", uppergamma},
             {"polygamma", polygamma},
             {"kronecker_delta", kronecker_delta},
+            {"kroneckerdelta", kronecker_delta},
             {"atan2", atan2},
         };
 
@@ -135,6 +136,7 @@ RCP<const Basic> Parser::functionify(const std::string &name, vec_basic &params)
             {"max", max},
             {"min", min},
             {"levi_civita", levi_civita},
+            {"levicivita", levi_civita},
         };
 
     const static std::map<
